@@ -3,6 +3,7 @@
   locals  every `return <expr>` becomes `result_ = <expr>; return result_`
   ifelse  `x = a if c else b` assignments become if/else statements
   rename  every local variable of every function is renamed (suffix _r)
+  comp2loop / loop2comp   list comprehensions <-> loops that append
   torchfn x.exp() / x.log() / x.sqrt() / x.square() / x.cumsum(..) ... become torch.exp(x) ...
 usage: selftest/refactor_gen.py <variant> <out dir>     writes a rewritten copy of /repo/pfhedge to <out dir>/pfhedge
        selftest/refactor_gen.py run <variant>           rewrite, (MT_SUITE=1: run the pinned suite on it,) run every check, report"""
@@ -165,6 +166,69 @@ class TorchFunctionForm(ast.NodeTransformer):
         return node
 
 
+class CompToLoop(ast.NodeTransformer):
+    """`name = [elt for t in it]` (one generator, no condition) -> `name = []` + for-loop with append"""
+    def __init__(self):
+        self.n = 0
+
+    def _fix(self, body):
+        out = []
+        for st in body:
+            if (isinstance(st, ast.Assign) and len(st.targets) == 1 and isinstance(st.targets[0], ast.Name) and isinstance(st.value, ast.ListComp)
+                    and len(st.value.generators) == 1 and not st.value.generators[0].ifs and not st.value.generators[0].is_async):
+                g = st.value.generators[0]
+                nm = st.targets[0].id
+                if any(isinstance(x, ast.Name) and x.id == nm for x in ast.walk(st.value)):
+                    out.append(st)
+                    continue
+                self.n += 1
+                out.append(ast.Assign(targets=[ast.Name(id=nm, ctx=ast.Store())], value=ast.List(elts=[], ctx=ast.Load()), lineno=st.lineno))
+                out.append(ast.For(target=g.target, iter=g.iter, orelse=[], body=[ast.Expr(value=ast.Call(func=ast.Attribute(value=ast.Name(id=nm, ctx=ast.Load()), attr="append", ctx=ast.Load()),
+                                                                                                     args=[st.value.elt], keywords=[]))], lineno=st.lineno))
+            else:
+                for fld in ("body", "orelse", "finalbody"):
+                    if hasattr(st, fld) and isinstance(getattr(st, fld), list) and getattr(st, fld) and isinstance(getattr(st, fld)[0], ast.stmt):
+                        setattr(st, fld, self._fix(getattr(st, fld)))
+                out.append(st)
+        return out
+
+    def visit_Module(self, node):
+        node.body = self._fix(node.body)
+        return node
+
+
+class LoopToComp(ast.NodeTransformer):
+    """`name = []` directly followed by `for t in it: name.append(expr)` -> `name = [expr for t in it]`"""
+    def __init__(self):
+        self.n = 0
+
+    def _fix(self, body):
+        out, k = [], 0
+        while k < len(body):
+            st = body[k]
+            nxt = body[k + 1] if k + 1 < len(body) else None
+            if (isinstance(st, ast.Assign) and len(st.targets) == 1 and isinstance(st.targets[0], ast.Name) and isinstance(st.value, ast.List) and not st.value.elts
+                    and isinstance(nxt, ast.For) and not nxt.orelse and len(nxt.body) == 1 and isinstance(nxt.body[0], ast.Expr) and isinstance(nxt.body[0].value, ast.Call)
+                    and isinstance(nxt.body[0].value.func, ast.Attribute) and nxt.body[0].value.func.attr == "append" and isinstance(nxt.body[0].value.func.value, ast.Name)
+                    and nxt.body[0].value.func.value.id == st.targets[0].id and len(nxt.body[0].value.args) == 1
+                    and not any(isinstance(x, ast.Name) and x.id == st.targets[0].id for x in ast.walk(nxt.body[0].value.args[0]))):
+                self.n += 1
+                out.append(ast.Assign(targets=[ast.Name(id=st.targets[0].id, ctx=ast.Store())], lineno=st.lineno,
+                                      value=ast.ListComp(elt=nxt.body[0].value.args[0], generators=[ast.comprehension(target=nxt.target, iter=nxt.iter, ifs=[], is_async=0)])))
+                k += 2
+                continue
+            for fld in ("body", "orelse", "finalbody"):
+                if hasattr(st, fld) and isinstance(getattr(st, fld), list) and getattr(st, fld) and isinstance(getattr(st, fld)[0], ast.stmt):
+                    setattr(st, fld, self._fix(getattr(st, fld)))
+            out.append(st)
+            k += 1
+        return out
+
+    def visit_Module(self, node):
+        node.body = self._fix(node.body)
+        return node
+
+
 def rewrite(variant, out):
     out = pathlib.Path(out)
     shutil.copytree("/repo/pfhedge", out / "pfhedge")
@@ -175,7 +239,7 @@ def rewrite(variant, out):
         tree = ast.parse(pathlib.Path(mod.path).read_text())
         if variant == "torchfn" and not any(l.strip() == "import torch" for l in pathlib.Path(mod.path).read_text().splitlines()):
             continue
-        tr = {"kw": lambda: KwRewriter(prog, mod.name), "locals": ReturnLocal, "ifelse": IfElse, "rename": RenameLocals, "torchfn": TorchFunctionForm}[variant]()
+        tr = {"kw": lambda: KwRewriter(prog, mod.name), "locals": ReturnLocal, "ifelse": IfElse, "rename": RenameLocals, "torchfn": TorchFunctionForm, "comp2loop": CompToLoop, "loop2comp": LoopToComp}[variant]()
         tree = tr.visit(tree)
         if tr.n:
             ast.fix_missing_locations(tree)
